@@ -87,7 +87,9 @@ fn make_text(ls: &LangSpec, rng: &mut Rng) -> String {
     body.push_str(piece);
     body.push('\n');
   }
-  let t = format!("{}{}{}", ls.pre, body, ls.post);
+  // some texts start with blank lines: the tree's root node then starts after them, the document does not
+  let lead = if rng.chance(1, 4) { "\n\n" } else { "" };
+  let t = format!("{lead}{}{}{}", ls.pre, body, ls.post);
   if rng.chance(1, 5) { t.replace('\n', "\r\n") } else { t }
 }
 
